@@ -34,6 +34,7 @@ CONSTANTS Derives,          \* subset of the six derive names explored by this c
           MaxContainer, MaxField1, MaxField2, MaxVariant1, MaxVariant2,
           EMIT
 
+BadShapeForms == {"badshape", "dblprefix", "anybad"}     \* an unknown word, a doubled prefix, an unknown word after `any`
 AnyIx == 0..9            \* item numbers a position may carry (0 = the member itself)
 ElementLevel == {"FromDeriveInput", "FromField", "FromVariant", "FromTypeParam", "FromAttributes"}
 It(name, form) == [name |-> name, form |-> form]
@@ -148,7 +149,7 @@ ContainerItem(derive, s, it, pos) ==
          [] n = "from_ident" -> R([s EXCEPT !.from_ident = TRUE, !.default = TRUE], <<>>)          \* HACK in the code: counts as a default
          [] n = "from_word" -> IF s.from_word THEN R(s, one("dup")) ELSE IF bad THEN R(s, one("form")) ELSE R([s EXCEPT !.from_word = TRUE], <<>>)
          [] n = "from_none" -> IF s.from_none THEN R(s, one("dup")) ELSE IF bad THEN R(s, one("form")) ELSE R([s EXCEPT !.from_none = TRUE], <<>>)
-         [] n = "supports" -> IF f \in {"badshape", "dblprefix"} THEN R(s, one("shape-word")) ELSE IF bad THEN R(s, one("form")) ELSE R([s EXCEPT !.supports = TRUE], <<>>)
+         [] n = "supports" -> IF f \in BadShapeForms THEN R(s, one("shape-word")) ELSE IF bad THEN R(s, one("form")) ELSE R([s EXCEPT !.supports = TRUE], <<>>)
 
 -----------------------------------------------------------------------------
 (* The builder + machine                                                   *)
@@ -179,7 +180,8 @@ AddContainer ==
 
 ToBody == phase = "container" /\ phase' = "body1" /\ UNCHANGED <<derive, shape, cont, f1, f2, v1, v2>>
 
-HasFields == shape \in {"named", "named_attrs"}
+IsAttrsShape(sh) == sh \in {"named_attrs", "named_attrs_with"}      \* the magic `attrs` member, plain or with its own `with = ..`
+HasFields == shape = "named" \/ IsAttrsShape(shape)
 AddField1 ==
   /\ phase = "body1" /\ HasFields /\ Len(f1.items) < MaxField1
   /\ \E it \in FieldItems :
@@ -225,13 +227,13 @@ FieldOk(f) == f.d = <<>>
 BodyDiags ==
   LET elem == derive \in ElementLevel IN
   CASE shape = "union" -> <<>>                                            \* rejected in start(): see Result
-    [] shape \in {"named", "named_attrs"} ->
+    [] shape = "named" \/ IsAttrsShape(shape) ->
          f1.d \o (IF shape = "named" /\ f2.present THEN f2.d ELSE <<>>)
          \* Core::validate_body: more than one flatten field (among the fields that parsed)
          \o (IF shape = "named" /\ FieldOk(f1) /\ FieldOk(f2) /\ f1.s.flatten /\ f2.s.flatten
              THEN <<Dg("multi-flatten", <<"f1", 0>>), Dg("multi-flatten", <<"f2", 0>>)>> ELSE <<>>)
          \* OuterFrom::validate_body: an `attrs` field needs forward_attrs
-         \o (IF shape = "named_attrs" /\ elem /\ ~cont.s.forward THEN <<Dg("attrs-without-forward", <<"f2", 0>>)>> ELSE <<>>)
+         \o (IF IsAttrsShape(shape) /\ elem /\ ~cont.s.forward THEN <<Dg("attrs-without-forward", <<"f2", 0>>)>> ELSE <<>>)
     [] shape \in {"unit", "newtype"} ->
          IF derive = "FromMeta" /\ cont.s.from_word THEN <<Dg("from_word-unit-newtype", <<"c", 0>>)>> ELSE <<>>
     [] TupleN(shape) ->
@@ -283,7 +285,7 @@ ElementViolations(el, items, known(_), repeatable, style) ==
       forms == {Viol("form", {pos(i)}) : i \in {i \in 1..Len(items) : known(items[i].name) /\ ~GoodForm(items[i].name, items[i].form)
                                                                    /\ (items[i].name \in repeatable \/ \A j \in 1..(i-1) : ~(items[j].name = items[i].name /\ accepted(j)))
                                                                    /\ ~(items[i].name = "word" /\ style # "unit")
-                                                                   /\ ~(items[i].name = "supports" /\ items[i].form \in {"badshape", "dblprefix"})}}
+                                                                   /\ ~(items[i].name = "supports" /\ items[i].form \in BadShapeForms)}}
       conflict(a, b, rule) == IF has(a) /\ has(b) THEN {Viol(rule, {pos(i) : i \in named(a) \cup named(b)})} ELSE {}
       flattenGood == has("flatten")
   IN dups \cup unknown \cup forms \cup syntax
@@ -293,7 +295,7 @@ ElementViolations(el, items, known(_), repeatable, style) ==
      \cup (IF flattenGood /\ truthy("multiple") THEN conflict("flatten", "multiple", "flatten+multiple") ELSE {})
      \cup (IF has("map") /\ has("and_then") THEN {Viol("map+and_then", {pos(i) : i \in named("map") \cup named("and_then")})} ELSE {})
      \cup (IF named("word") # {} /\ style # "unit" THEN {Viol("word-nonunit", {pos(i) : i \in named("word")})} ELSE {})
-     \cup {Viol("shape-word", {pos(i)}) : i \in Idx(items, LAMBDA x : x.name = "supports" /\ x.form \in {"badshape", "dblprefix"} /\ known("supports"))}
+     \cup {Viol("shape-word", {pos(i)}) : i \in Idx(items, LAMBDA x : x.name = "supports" /\ x.form \in BadShapeForms /\ known("supports"))}
 
 FieldKnown(n) == n \in {"rename", "default", "with", "skip", "map", "and_then", "multiple", "flatten"}
 VariantKnown(n) == n \in {"rename", "skip", "word"}
@@ -308,11 +310,11 @@ Given(n) == \E i \in 1..Len(cont.items) : cont.items[i].name = n /\ GoodForm(n, 
 
 BodyViolations ==
   LET elem == derive \in ElementLevel IN
-  CASE shape \in {"named", "named_attrs"} ->
+  CASE shape = "named" \/ IsAttrsShape(shape) ->
          ElementViolations("f1", f1.items, FieldKnown, {}, "unit")
          \cup (IF shape = "named" THEN ElementViolations("f2", f2.items, FieldKnown, {}, "unit") ELSE {})
          \cup (IF shape = "named" /\ Flattens(f1) /\ Flattens(f2) THEN {Viol("multi-flatten", {<<"f1", 0>>, <<"f2", 0>>} \cup {<<"f1", i>> : i \in AnyIx \ {0}} \cup {<<"f2", i>> : i \in AnyIx \ {0}})} ELSE {})
-         \cup (IF shape = "named_attrs" /\ elem /\ ~Given("forward_attrs") THEN {Viol("attrs-without-forward", {<<"f2", 0>>})} ELSE {})
+         \cup (IF IsAttrsShape(shape) /\ elem /\ ~Given("forward_attrs") THEN {Viol("attrs-without-forward", {<<"f2", 0>>})} ELSE {})
     [] shape \in {"unit", "newtype"} ->
          IF derive = "FromMeta" /\ Given("from_word") THEN {Viol("from_word-unit-newtype", {<<"c", i>> : i \in AnyIx})} ELSE {}
     [] TupleN(shape) -> IF derive = "FromMeta" THEN {Viol("body-unrepresentable", {<<"body", 0>>})} ELSE {}
